@@ -45,9 +45,10 @@ package subscribe
 //@ func (*Server).sendSubscribeResponse
 //@   props C07 C08 C05 C12
 //@   requires s != nil && RespWf(r) && ClientWf(c)
-//@   modifies ghost lastChecked, ghost lastVerdict, ghost aclChecks, ghost sends, ghost sendTimerArmed
+//@   modifies ghost lastChecked, ghost lastVerdict, ghost aclChecks, ghost sends, ghost sendTimerArmed, ghost sendFailures
 //@   ensures [one-send-at-most C07] sends == old(sends) || sends == old(sends) + 1
-//@   ensures [timer-disarmed-after C08 C05] !sendTimerArmed || sends == old(sends)
+//@   ensures [timer-disarmed-after C08 C05] !sendTimerArmed || (sends == old(sends) && sendTimerArmed == old(sendTimerArmed))
+//@   ensures [a-failed-send-is-reported C08] (sendFailures == old(sendFailures) || sendFailures == old(sendFailures) + 1) && (sendFailures != old(sendFailures) ==> res0 != nil)
 
 // The package-level sync response carries no update (established by the
 // package initialiser; no function under contract writes it).
@@ -79,6 +80,7 @@ package subscribe
 //@   requires l != nil && StreamClientWf(c)
 //@   modifies captured err, ghost leafInserts, ghost lastInsertWasSync
 //@   preserves syncInserts
+//@   preserves syncOffers
 
 // processSubscription: walk, then exactly one sync marker, inserted last; on a
 // path error no sync marker at all; updates_only skips the walk.
@@ -86,9 +88,12 @@ package subscribe
 //@   props C05 C04 C12
 //@   effect walks := walks + 1
 //@   requires s != nil && s.c != nil && StreamClientWf(c)
-//@   modifies ghost syncInserts, ghost leafInserts, ghost lastInsertWasSync
-//@   invariant 0: syncInserts == old(syncInserts) && err == nil
+//@   modifies ghost syncInserts, ghost leafInserts, ghost lastInsertWasSync, ghost syncOffers, sends(c.errC)
+//@   invariant 0: syncInserts == old(syncInserts) && syncOffers == old(syncOffers) && err == nil && sends(c.errC) == old(sends(c.errC))
 //@   ensures [at-most-one-sync C05] syncInserts == old(syncInserts) || (syncInserts == old(syncInserts) + 1 && lastInsertWasSync)
+//@   ensures [marker-queued-unless-an-error-is-reported C05 C04] sends(c.errC) == old(sends(c.errC)) ==> syncOffers == old(syncOffers) + 1 && syncInserts == old(syncInserts) + 1
+//@   ensures [marker-offered-at-most-once C05] syncOffers == old(syncOffers) || syncOffers == old(syncOffers) + 1
+//@   ensures [only-an-error-is-reported-and-once C05] sends(c.errC) == old(sends(c.errC)) || (sends(c.errC) == old(sends(c.errC)) + 1 && lastsent(c.errC) != nil)
 //@   ensures [updates-only-skips-walk C04] UpdatesOnly(c.sr) ==> leafInserts == old(leafInserts)
 //@ pred UpdatesOnly(r *pb.SubscribeRequest) := isa(r.Request.(*pb.SubscribeRequest_Subscribe)) && payload(r.Request) != nil
 //@   && r.Request.(*pb.SubscribeRequest_Subscribe).Subscribe != nil && r.Request.(*pb.SubscribeRequest_Subscribe).Subscribe.UpdatesOnly
@@ -130,8 +135,14 @@ package subscribe
 //@ func (*Server).sendStreamingResults
 //@   props C05 C07 C08 C14 C04 C12
 //@   requires s != nil && StreamClientWf(c) && SyncRespWf() && !tdelSeen
-//@   modifies ghost lastChecked, ghost lastVerdict, ghost aclChecks, ghost sends, ghost sendTimerArmed, ghost tdelSeen, ghost dequeues
+//@   modifies ghost lastChecked, ghost lastVerdict, ghost aclChecks, ghost sends, ghost sendTimerArmed, ghost tdelSeen, ghost dequeues, ghost sendFailures, sends(c.errC)
 //@   invariant 0: [single-target-stream-ends-after-target-delete C14] !tdelSeen || c.target == "*"
+//@   invariant 0: [send-timeout-not-running-while-waiting-for-a-value C08] !sendTimerArmed
+//@   invariant 0: [a-failed-send-ends-the-stream C08] sendFailures == old(sendFailures) && sends(c.errC) == old(sends(c.errC))
+//@   ensures [one-termination-report C05] sends(c.errC) == old(sends(c.errC)) + 1
+//@   ensures [clean-end-only-after-close-or-target-delete C05 C14] lastsent(c.errC) == nil ==> closed(c.queue.closed) || (tdelSeen && c.target != "*")
+//@   ensures [a-failed-send-ends-the-stream-with-an-error C08] sendFailures != old(sendFailures) ==> lastsent(c.errC) != nil
+//@   ensures [timeout-watcher-released C08] closed(done)
 //@   assert at call (*Server).sendSubscribeResponse#0: [dup-count-is-the-dequeued-one C08] arg1.dup == dup && arg1.stream == c.stream && arg1.n != nil && box(arg1.n) == item
 //@   assert at call BidiStreamingServer.Send#0: [sync-response-only C07 C05] arg0 == subscribeSync && isa(item.(syncMarker))
 
@@ -140,8 +151,11 @@ package subscribe
 //@ func (*Server).processPollingSubscription
 //@   props C05 C12
 //@   requires s != nil && s.c != nil && StreamClientWf(c)
-//@   modifies ghost syncInserts, ghost leafInserts, ghost lastInsertWasSync, ghost recvs, ghost walks
+//@   modifies ghost syncInserts, ghost leafInserts, ghost lastInsertWasSync, ghost recvs, ghost walks, ghost syncOffers, ghost lastRecvErr, sends(c.errC)
 //@   invariant 0: [one-walk-per-trigger C05] walks == old(walks) + 1 + recvs - old(recvs)
+//@   ensures [ends-only-on-a-closed-queue-or-a-stream-error C05] closed(c.queue.closed) || lastRecvErr != nil || lastRecvErr == io.EOF
+//@   ensures [only-eof-and-close-end-it-cleanly C05] lastsent(c.errC) == nil ==> closed(c.queue.closed) || lastRecvErr == io.EOF
+//@   ensures [a-stream-error-is-reported C05] !closed(c.queue.closed) && lastRecvErr != io.EOF ==> lastsent(c.errC) == lastRecvErr
 //@   ensures [walks-match-triggers C05] walks - old(walks) == recvs - old(recvs) || walks - old(walks) == recvs - old(recvs) + 1
 
 // ---- Subscribe ------------------------------------------------------------
